@@ -80,10 +80,17 @@ func reqRecord(k qkind, id uint16, ver int) *rc.Packet {
 	return &rc.Packet{Type: rc.UNSUBSCRIBE, ID: id, Filters: [][]byte{[]byte(fmt.Sprintf("f/%d/v%d", id, ver))}}
 }
 
-func ackRecord(kind byte, id uint16) *rc.Packet {
+func ackRecord(kind byte, id uint16) *rc.Packet { return ackRecordN(kind, id, 0) }
+
+// ackRecordN: acknowledgements of one kind differ in length with n (a SUBACK with 1..3 return
+// codes), so that a later, shorter acknowledgement of an entry shows what an earlier one left behind.
+func ackRecordN(kind byte, id uint16, n int) *rc.Packet {
 	p := &rc.Packet{Type: kind, ID: id}
 	if kind == rc.SUBACK {
 		p.Codes = []byte{byte(id % 3)}
+		for i := 0; i < (3-n%3)%3; i++ {
+			p.Codes = append(p.Codes, byte((n+i)%3))
+		}
 	}
 	return p
 }
@@ -94,10 +101,11 @@ func runQueueSeq(k qkind, ops []qop) (sig, desc string) {
 	q := newQueue(k)
 	var model []*mEntry
 	token := 0
+	// the entry an identifier stands for is the newest one registered under it
 	find := func(id uint16) *mEntry {
-		for _, e := range model {
-			if e.id == id {
-				return e
+		for i := len(model) - 1; i >= 0; i-- {
+			if model[i].id == id {
+				return model[i]
 			}
 		}
 		return nil
@@ -144,11 +152,15 @@ func runQueueSeq(k qkind, ops []qop) (sig, desc string) {
 			case *message.UnsubscribeMessage:
 				mm.AddTopic([]byte("mutated"))
 			}
-			if find(o.id) == nil {
+			// a registration under an identifier that is in flight repeats that request and changes nothing;
+			// once the entry has had its final acknowledgement the exchange is over, the identifier is free
+			// again and a registration under it is a new request, whether or not the finished entry has
+			// been collected yet
+			if e := find(o.id); e == nil || e.state == k.terminal {
 				model = append(model, &mEntry{id: o.id, req: rc.Encode(rec), token: token})
 			}
 		case 'a':
-			rec := ackRecord(o.kind, o.id)
+			rec := ackRecordN(o.kind, o.id, step)
 			m, err := libBuild(rec, false)
 			if err != nil {
 				return "c13:harness", err.Error()
